@@ -55,7 +55,7 @@ def corpus_items(tier, seed, bool_only=False, uncompute_opts=(True, False)):
     if tier == "thorough":
         return c + r
     ncore = len(c)
-    return slice_quick(c + r, seed, ncore, 1200)
+    return slice_quick(c + r, seed, ncore, 2600)
 
 
 def _inputs_from_model(m, names):
